@@ -1,7 +1,7 @@
 (* Dispatcher of the model area: typed value codecs (C03) and recurrence rules (C19).
    [dispatch_codec f a] = Some result when [f] names a function of this area.  Definitions only. *)
-Require Import Lib.Base.
+Require Import Lib.Base Model.DispatchC03.
 From Coq Require Import String.
 Local Open Scope string_scope.
 
-Definition dispatch_codec (f : list N) (a : jv) : option jv := None.
+Definition dispatch_codec (f : list N) (a : jv) : option jv := dispatch_c03 f a.
